@@ -102,19 +102,31 @@ StartComment(S) == SetM(Push(S, S.mode), M("C1"))
 BodyAt(S, p) == {b \in S.bodies : b.s = p}
 \* the dependency's Len() only succeeds when the value is followed by blank, line end or end of input
 FollowOK(S, q) == IF q < Len(S.tape) THEN S.tape[q + 1] \in (WSs \cup NLs) ELSE TRUE
-BodyLookNeeded(S) == \E b \in S.bodies : b.s >= S.pos /\ b.s + b.l >= Len(S.tape) /\ ~S.eof
+\* (the look-ahead of Len() reaches the first non-blank byte behind the body and, if that is a '#', the end of that line)
+BodyTailDecided(S, q) == LET idx == {i \in (q + 1)..Len(S.tape) : S.tape[i] \notin {32, 9, 10, 13}}
+                             r == IF idx = {} THEN 0 ELSE CHOOSE i \in idx : \A j \in idx : i <= j
+                         IN r # 0 /\ (S.tape[r] # 35 \/ \E i \in r..Len(S.tape) : S.tape[i] \in {10, 13})
+BodyLookNeeded(S) == \E b \in S.bodies : b.s >= S.pos /\ ~S.eof /\ (b.s + b.l >= Len(S.tape) \/ ~BodyTailDecided(S, b.s + b.l))
+\* The dependency's Len() does not stop at the end of the value: it goes on over blanks and line
+\* breaks and tries to read what follows as a comment or an annotation.  When the next non-blank
+\* byte after the body is "/", or a "#" comment that runs to the end of the input, the outcome is
+\* the dependency's (annotation syntax, unterminated comment): the model asks the oracle.
+NextNonBlank(S, q) == LET idx == {i \in (q + 1)..Len(S.tape) : S.tape[i] \notin (WSs \cup NLs)} IN
+                      IF idx = {} THEN 0 ELSE CHOOSE i \in idx : \A j \in idx : i <= j
+OracleAhead(S, q) == LET r == NextNonBlank(S, q) IN
+                     r # 0 /\ (S.tape[r] = 47 \/ (S.tape[r] = 35 /\ ~\E i \in r..Len(S.tape) : S.tape[i] \in NLs))
 DoSchema(S, p) ==
   LET S1 == BeginEv(S, "S", p) IN
   IF BodyAt(S, p) = {} THEN [S1 EXCEPT !.res = "oracle"]
   ELSE LET b == CHOOSE x \in BodyAt(S, p) : TRUE IN
-       IF ~FollowOK(S, p + b.l) THEN [S1 EXCEPT !.res = "oracle"]
+       IF ~FollowOK(S, p + b.l) \/ OracleAhead(S, p + b.l) THEN [S1 EXCEPT !.res = "oracle"]
        ELSE IF b.okS THEN [SetM(S1, M("SCL")) EXCEPT !.pos = p + b.l - 1]
        ELSE Err(S1, p + b.ei, "schema")
 DoEnum(S, p) ==
   LET S1 == BeginEv(S, "E", p) IN
   IF BodyAt(S, p) = {} THEN [S1 EXCEPT !.res = "oracle"]
   ELSE LET b == CHOOSE x \in BodyAt(S, p) : TRUE IN
-       IF ~FollowOK(S, p + b.l) THEN [S1 EXCEPT !.res = "oracle"]
+       IF ~FollowOK(S, p + b.l) \/ OracleAhead(S, p + b.l) THEN [S1 EXCEPT !.res = "oracle"]
        ELSE IF b.okE THEN [SetM(S1, M("EC")) EXCEPT !.pos = p + b.l - 1]
        ELSE Err(S1, p + b.ei, "enum")
 
